@@ -351,3 +351,39 @@ def field_compare(chk, fn, unit):
                        " ".join(fn.text(mi).split())[:40], k, name, fn.line_of(hit) if hit else 0, " ".join(fn.text(hit).split())[:40] if hit else ""),
                    key="fieldcompare|%s|%s<<%d" % (region_label(fn, mi), name, k))
     chk.floor(R + ":merges", n, 1)
+
+
+def nodisp_not_bp(chk, emit, unit):
+    """mod = 00 (no displacement) is chosen only when the base is not BP/R13 (16-bit: not the [disp16] slot)"""
+    R = "R-NODISP-NOT-BP"
+    chk.rule(R, "x86 _emit: every test `rel_offset == 0` that selects the displacement-less ModRM/SIB form is conjoined with `rb_reg != Gp::kIdBp` "
+                "(32/64-bit addressing: mod = 00 with base 101 means [disp32], so [rbp]/[r13] always need a disp8 of zero) or, in the 16-bit "
+                "form, with `mod != 6` ([bp] is the [disp16] slot)")
+    n = 0
+    for i, x in sorted(emit.ex.items()):
+        if x["k"] != "binop" or x["op"] != "==":
+            continue
+        l, r = emit.e(emit.strip(x["lhs"])), emit.e(emit.strip(x["rhs"]))
+        if l is None or r is None or l.get("name") != "rel_offset" or r.get("cv") != 0:
+            continue
+        # the whole conjunction this test is part of
+        par = emit.parent_map()
+        top = i
+        while top in par and (emit.e(par[top]) or {}).get("k") in ("binop", "paren", "cast", "unop") and \
+                ((emit.e(par[top]) or {}).get("op") in ("&&", None) or (emit.e(par[top]) or {}).get("k") in ("paren", "cast")):
+            if (emit.e(par[top]) or {}).get("k") == "unop":
+                break
+            top = par[top]
+        ok = False
+        for j in emit.walk(top):
+            y = emit.e(j)
+            if y is not None and y["k"] == "binop" and y["op"] == "!=":
+                a, b = emit.e(emit.strip(y["lhs"])), emit.e(emit.strip(y["rhs"]))
+                for u, v in ((a, b), (b, a)):
+                    if u is not None and v is not None and u["k"] == "ref" and (v.get("cvn") == "kIdBp" or (u.get("name") == "mod" and v.get("cv") == 6)):
+                        ok = True
+        n += 1
+        chk.ob(R, "x86::_emit|rel_offset==0@%d" % n, ok, loc=emit.loc(i),
+               detail="`%s` selects the form without displacement without excluding BP/R13 as base: [rbp] is then encoded as mod = 00, base = 101, "
+                      "which the CPU reads as [disp32] and consumes the next four bytes" % " ".join(emit.text(top).split())[:70], key="nodispbp|%d" % n)
+    chk.floor(R + ":tests", n, 3)
